@@ -518,24 +518,22 @@ func (n *Node) appendPropertyNodes(stringToPrepend string, stmt *Statement, prin
 								}
 
 								// Check for different types of private nodes - can be node arrays (expanded component pairs), statements (single nested statements), or strings (primitive entries).
+								// Operate on a local copy of the entry - the printed tree itself must not be modified
+								entry := v.Entry
 								// If statement ...
-								if reflect.TypeOf(v.Entry) == reflect.TypeOf(&Statement{}) {
+								if reflect.TypeOf(entry) == reflect.TypeOf(&Statement{}) {
 									// Embed statement into node array (and let it be printed after that)
-									elem := []*Node{&Node{Entry: v.Entry}}
-									// Override entry for downstream processing
-									v.Entry = elem
+									entry = []*Node{&Node{Entry: entry}}
 								}
 
 								// If private property is node array (i.e., actually complex) (or an embedded statement -- see above) ...
-								if reflect.TypeOf(v.Entry) == reflect.TypeOf([]*Node{}) {
+								if reflect.TypeOf(entry) == reflect.TypeOf([]*Node{}) {
 									// Flatten it into string ...
-									elem := v.Entry.([]*Node)[0].StringFlat()
-									// ... and override output
-									v.Entry = elem
+									entry = entry.([]*Node)[0].StringFlat()
 								}
 
 								// Append each entry individually as string
-								stringToAppendTo.WriteString(escapeForJSON(v.Entry.(string)))
+								stringToAppendTo.WriteString(escapeForJSON(entry.(string)))
 								entryAdded = true
 							}
 						}
